@@ -17,8 +17,8 @@ theorem render_ignores_secret (ps : List Piece) (h : ps.any Piece.usesSecret = f
     simp only [render, List.map_cons] at ih ⊢
     rw [piece_render_ignores_secret p h.1 pub s₁ s₂, ih h.2]
 
-theorem fmt_noninterfering_partial (t : Ty) (ht : leaky t = false) (pub : String) (s₁ s₂ : List UInt8) :
-    render (debugFmt t) ⟨pub, s₁⟩ = render (debugFmt t) ⟨pub, s₂⟩ :=
+theorem fmt_noninterfering_partial (c : FmtCfg) (t : Ty) (ht : leaky c t = false) (pub : String) (s₁ s₂ : List UInt8) :
+    render (debugFmt c t) ⟨pub, s₁⟩ = render (debugFmt c t) ⟨pub, s₂⟩ :=
   render_ignores_secret _ ht pub s₁ s₂
 
 /-- a leaky template really shows the secret: two secrets that differ give different output -/
@@ -35,31 +35,63 @@ theorem render_depends_on_secret (ps : List Piece) (h : ps.any Piece.usesSecret 
       cases p <;> simp_all [Piece.usesSecret, Piece.render]
     · exact ih h
 
-theorem leaky_iff (t : Ty) :
-    leaky t = true ↔
-      (∃ q, t = .options q) ∨ (∃ q, t = .pgOptions q) ∨ t = .argon2 ∨ t = .blsKeyGen ∨ (∃ a, t = .jwkParts a) ∨
-      (∃ a, a.isBls = true ∧ (t = .key a ∨ t = .anyKey a ∨ t = .localKey a)) := by
+/-- the classification in terms of the configuration: a type is leaky exactly when it is one of the six and ITS flag is off -/
+theorem leaky_iff (c : FmtCfg) (t : Ty) :
+    leaky c t = true ↔
+      (c.optionsRedacts = false ∧ ∃ q, t = .options q) ∨ (c.pgOptionsRedacts = false ∧ ∃ q, t = .pgOptions q) ∨
+      (c.argon2Redacts = false ∧ t = .argon2) ∨ (c.blsKeyGenRedacts = false ∧ t = .blsKeyGen) ∨
+      (c.jwkPartsRedacts = false ∧ ∃ a, t = .jwkParts a) ∨
+      (c.blsSecretRedacts = false ∧ ∃ a, a.isBls = true ∧ (t = .key a ∨ t = .anyKey a ∨ t = .localKey a)) := by
+  obtain ⟨o, b, g, r, p, j⟩ := c
   cases t with
-  | options q => cases q <;> simp [leaky, debugFmt, Piece.usesSecret]
-  | pgOptions q => cases q <;> simp [leaky, debugFmt, Piece.usesSecret]
-  | jwkParts a => simp [leaky, debugFmt, Piece.usesSecret]
-  | key a => cases a <;> simp [leaky, debugFmt, keyFmt, redactedKey, Alg.isBls, Piece.usesSecret]
-  | anyKey a => cases a <;> simp [leaky, debugFmt, keyFmt, redactedKey, Alg.isBls, Piece.usesSecret]
-  | localKey a => cases a <;> simp [leaky, debugFmt, keyFmt, redactedKey, Alg.isBls, Piece.usesSecret]
-  | error c => simp [leaky, debugFmt, Piece.usesSecret]
+  | options q => cases q <;> cases o <;> simp [leaky, debugFmt, Piece.usesSecret]
+  | pgOptions q => cases q <;> cases p <;> simp [leaky, debugFmt, Piece.usesSecret]
+  | argon2 => cases r <;> simp [leaky, debugFmt, Piece.usesSecret]
+  | blsKeyGen => cases g <;> simp [leaky, debugFmt, Piece.usesSecret]
+  | jwkParts a => cases j <;> simp [leaky, debugFmt, Piece.usesSecret]
+  | key a => cases a <;> cases b <;> simp [leaky, debugFmt, keyFmt, redactedKey, Alg.isBls, Piece.usesSecret]
+  | anyKey a => cases a <;> cases b <;> simp [leaky, debugFmt, keyFmt, redactedKey, Alg.isBls, Piece.usesSecret]
+  | localKey a => cases a <;> cases b <;> simp [leaky, debugFmt, keyFmt, redactedKey, Alg.isBls, Piece.usesSecret]
+  | error e => simp [leaky, debugFmt, Piece.usesSecret]
   | _ => simp [leaky, debugFmt, Piece.usesSecret]
 
-theorem scenario_leaks_iff (s : Scenario) :
-    s.leaks = true ↔ s.uriHasCredentials = true ∧ LogSite.anyOptions ∈ s.sites := by
+/-- nothing is leaky exactly when all six flags are on -/
+theorem no_leaky_iff (c : FmtCfg) : (∀ t, leaky c t = false) ↔ c.allRedact = true := by
+  constructor
+  · intro h
+    have h1 := h (.options false)
+    have h2 := h (.key .bls12381g1)
+    have h3 := h .blsKeyGen
+    have h4 := h .argon2
+    have h5 := h (.pgOptions false)
+    have h6 := h (.jwkParts .ed25519)
+    obtain ⟨o, b, g, r, p, j⟩ := c
+    cases o <;> cases b <;> cases g <;> cases r <;> cases p <;> cases j <;>
+      simp_all [leaky, debugFmt, keyFmt, Alg.isBls, Piece.usesSecret, FmtCfg.allRedact]
+  · intro h t
+    cases ht : leaky c t with
+    | false => rfl
+    | true =>
+      exfalso
+      have := (leaky_iff c t).mp ht
+      obtain ⟨o, b, g, r, p, j⟩ := c
+      simp only [FmtCfg.allRedact, Bool.and_eq_true] at h
+      obtain ⟨⟨⟨⟨⟨rfl, rfl⟩, rfl⟩, rfl⟩, rfl⟩, rfl⟩ := h
+      simp at this
+
+theorem scenario_leaks_iff (c : FmtCfg) (s : Scenario) :
+    s.leaks c = true ↔ c.optionsRedacts = false ∧ s.uriHasCredentials = true ∧ LogSite.anyOptions ∈ s.sites := by
+  have hopt : LogSite.leaky c .anyOptions = true ↔ c.optionsRedacts = false := by
+    obtain ⟨o, b, g, r, p, j⟩ := c
+    cases o <;> simp [LogSite.leaky, leaky, debugFmt, Piece.usesSecret]
   simp only [Scenario.leaks, Bool.and_eq_true, List.any_eq_true]
   constructor
   · rintro ⟨h1, x, hx, hl⟩
-    refine ⟨h1, ?_⟩
     cases x with
-    | anyOptions => exact hx
+    | anyOptions => exact ⟨hopt.mp hl, h1, hx⟩
     | label => simp [LogSite.leaky] at hl
-  · rintro ⟨h1, h2⟩
-    exact ⟨h1, .anyOptions, h2, by simp [LogSite.leaky, leaky, debugFmt, Piece.usesSecret]⟩
+  · rintro ⟨h0, h1, h2⟩
+    exact ⟨h1, .anyOptions, h2, hopt.mpr h0⟩
 
 theorem key_drop_wipes (k : KeyBlock) : ∀ c ∈ (dropKey k).cells, c = 0 := by
   intro c hc
